@@ -14,7 +14,9 @@ PROP = dict(
                     "coverage-guided fuzzing (DESIGN: optional) and valgrind memcheck were not run."),
         level_note=("trusts the reference decoder / well-formedness predicate in harness/c01_refcodec.h and gcc ASan+UBSan red zones; "
                     "a stray write into another live heap block that is never compared would be missed"),
-        legs=[dict(name="c03_decode", src=["c03_decode.c"], libs=["mptcore"], batch=2048, timeout=40,
+        legs=[dict(name="c03_fuzz", kind="fuzz", src=["c03_fuzz.c"], libs=["mptcore"], runs={"thorough": 60000}, max_len=600,
+                   floors={"fuzz:streams-with-message": 10000, "fuzz:streams-with-error": 10000}),
+              dict(name="c03_decode", memcheck=4000, src=["c03_decode.c"], libs=["mptcore"], batch=2048, timeout=40,
                    floors={"mpt_decode_cobs": 1000000, "mpt_decode_cobs_r": 1000000, "mpt_decode_cobs_zpe": 1000000,
                            "mpt_decode_cobs_zpe_r": 1000000, "mpt_decode_command": 1000000,
                            "monitor:window-compare": 5000000, "monitor:message-compare": 300000,
